@@ -90,7 +90,11 @@ func (e *Engine) call(fn *ssa.Function, s *St, in *ssa.Call, ip int) (next []suc
 		case "append":
 			switch x := args[0].(type) {
 			case BytesV:
-				y, _ := args[1].(BytesV)
+				y, isB := args[1].(BytesV)
+				if _, isNull := args[1].(NullV); isNull && !isB && !inHarnessFile(fn) && !e.nativeMode && e.model == nil {
+					// neo-go compiles append(a, b...) on byte slices to CAT, which faults on a Null operand
+					return nil, []Out{{s.State, true, constBytes("invalid conversion: Null/ByteString (CAT)")}}, false
+				}
 				return set(BytesV{append(append([]*T(nil), x.b...), y.b...)})
 			case NullV:
 				if y, ok := args[1].(ListV); ok { // copy: a fresh array
@@ -554,7 +558,17 @@ func (e *Engine) call(fn *ssa.Function, s *St, in *ssa.Call, ip int) (next []suc
 			if e.roDepth > 0 {
 				return nil, []Out{{s.State, true, constBytes("missing call flags")}}, false
 			}
-			outs := e.runFrame(e.linked[e.names[e.cur]].Func("_deploy"), []Value{cargs[2], BoolV{tTrue}}, s.State)
+			data := cargs[2]
+			if e.updateFromVersion != nil { // the old code appended ITS version: the harness-supplied one
+				if l, ok := data.(ListV); ok {
+					arr := append([]Value(nil), s.heap[l.id].(ArrObj).e...)
+					if len(arr) > 0 {
+						arr[len(arr)-1] = IntV{e.updateFromVersion}
+					}
+					data = ListV{e.alloc(s.State, ArrObj{arr})}
+				}
+			}
+			outs := e.runFrame(e.linked[e.names[e.cur]].Func("_deploy"), []Value{data, BoolV{tTrue}}, s.State)
 			next, fin = e.continueWith(s, in, ip, outs, func(o Out) (Value, bool) { return NullV{}, o.panicked })
 			return next, fin, false
 		}
